@@ -3,8 +3,9 @@
 // op line:   <alg> <org> <sk> <dk> <w> <h> <so> <do> <spad> <dpad> <arg> <pf> | <src values w*h> | <dst values w*h> [| <src2 values>]
 //   pf    flags of the tree under test: bit 0 = fill_pixels on planar step-iterator views compiles (harness/C04/probe_fill_planar_step.cpp);
 //         without it such an op yields the observation err:no-compile; bit 1 (read by the model only) = image::allocate_ keeps the requested
-//         dimensions of a degenerate (w x 0 / 0 x h) image
-//   alg   copy | fill | equal | foreach | foreachpos | generate | tr1 | tr2 | trpos | cconv | imgeq | fillx | genx | tr1x
+//         dimensions of a degenerate (w x 0 / 0 x h) image; bit 2 (read by the model only) = uninitialized_copy_pixels stores through proxy references
+//   alg   copy | fill | equal | foreach | foreachpos | generate | tr1 | tr2 | trpos | cconv | imgeq | fillx | genx | tr1x | copyov | ufill | ucopy | dcons | destruct
+//         ufill / ucopy / dcons / destruct: uninitialized_fill_pixels / uninitialized_copy_pixels / default_construct_pixels / destruct_pixels (like fill / copy)
 //         fillx / genx / tr1x (rgb8, rgb8p): like fill / generate / tr1 but the value / the functor's result is a bgr8_pixel_t, a compatible
 //                pixel type with another channel order: channels must be paired by colour, not by storage position
 //         imgeq: two gil::image objects (kinds ignored): image 1 is w x h with alignment <so>, image 2 is (w + arg) x h (arg = 2: h x w, same pixel count) with alignment <do>
@@ -152,10 +153,51 @@ template <typename O, typename F> static void with_view(Side<O>& s, F f) {
     else throw std::runtime_error("kind");
 }
 
+// view of kind sub | full (as is) | flipx | flipy over an already cut sub-view
+template <typename V, typename F> static void kinded(V const& v, std::string const& kind, F f) {
+    if (kind == "flipx") f(gil::flipped_left_right_view(v));
+    else if (kind == "flipy") f(gil::flipped_up_down_view(v));
+    else if (kind == "sub" || kind == "full") f(v);
+    else throw std::runtime_error("kind");
+}
+
 static std::vector<long> parse_vals(std::string const& s) { std::vector<long> v; for (auto& w : hv::words(s)) v.push_back(hv::to_ll(w)); return v; }
+
+// copyov: copy_pixels between two views of ONE underlying image (overlapping or not).
+//   sk = full : underlying w x (h+2), no row padding; source = rows [sy, sy+h), destination = rows [dy, dy+h)  (both 1-D traversable)
+//   otherwise : underlying (w+2) x (h+2) with row padding spad; source = sub-view at (sx, sy), destination = sub-view at (dx, dy), each
+//               then flipped as sk / dk say (sub | flipx | flipy);   arg = sx + 3*sy + 9*dx + 27*dy
+//   source values: ALL pixels of the underlying image; observation: frame (mask = destination pixels) ; ALL pixels of the underlying image
+template <typename O> static std::string run_copyov(std::vector<std::string> const& hd, std::vector<std::string> const& parts) {
+    long w = hv::to_ll(hd[4]), h = hv::to_ll(hd[5]), so = hv::to_ll(hd[6]), spad = hv::to_ll(hd[8]), arg = hv::to_ll(hd[10]);
+    std::string sk = hd[2], dk = hd[3];
+    bool oned = sk == "full";
+    long W0 = oned ? w : w + 2, H0 = h + 2, pad = oned ? 0 : spad;
+    long sx = oned ? 0 : arg % 3, sy = (arg / 3) % 3, dx = oned ? 0 : (arg / 9) % 3, dy = (arg / 27) % 3;
+    auto sv = parse_vals(parts.at(1));
+    Geo g{"full", W0, H0, so, pad, W0, H0, 0, 0, O::bits ? (so / 9) % 8 : 0};
+    Side<O> S(g);
+    auto u = S.under();
+    if ((long)sv.size() != W0 * H0) return "bad-op:values";
+    { long i = 0; for (long y = 0; y < H0; ++y) for (long x = 0; x < W0; ++x, ++i) u(x, y) = O::enc(sv.at(i)); }
+    S.before = S.buf.b; S.mask.assign(S.buf.b.size(), 0);
+    auto sb = gil::subimage_view(u, sx, sy, w, h); auto db = gil::subimage_view(u, dx, dy, w, h);
+    std::string out;
+    kinded(sb, sk, [&](auto const& src) { kinded(db, dk, [&](auto const& dst) {
+        for (long y = 0; y < dst.height(); ++y) for (long x = 0; x < dst.width(); ++x) O::mark(S.mask, S.buf.b.data(), dst, x, y);
+        gil::copy_pixels(src, dst);
+        out = S.frame() + " ;" + S.values(u);
+    }); });
+    return out;
+}
+
+// planar organisation: is the view's x iterator planar_pixel_iterator itself (full / sub / flipped up-down), not a step adaptor?  (true for every other organisation)
+template <typename O, typename V, typename U> struct PtrX : std::integral_constant<bool,
+    !std::is_same<O, OrgT<1>>::value || std::is_same<typename std::decay_t<V>::x_iterator, typename std::decay_t<U>::x_iterator>::value> {};
 
 template <typename OS, typename OD> static std::string run_op(std::vector<std::string> const& hd, std::vector<std::string> const& parts) {
     std::string alg = hd[0];
+    if (alg == "copyov") { if constexpr (std::is_same<OS, OD>::value) return run_copyov<OS>(hd, parts); else return "bad-op:alg"; }
     long w = hv::to_ll(hd[4]), h = hv::to_ll(hd[5]), so = hv::to_ll(hd[6]), dof = hv::to_ll(hd[7]), spad = hv::to_ll(hd[8]), dpad = hv::to_ll(hd[9]), arg = hv::to_ll(hd[10]);
     auto sv = parse_vals(parts.at(1)), dv = parse_vals(parts.at(2));
     if (alg == "imgeq") {
@@ -185,6 +227,12 @@ template <typename OS, typename OD> static std::string run_op(std::vector<std::s
             if (alg == "cconv") gil::copy_and_convert_pixels(src, dst);
             else if constexpr (gil::pixels_are_compatible<typename OS::pixel_t, typename OD::pixel_t>::value) {
                 if (alg == "copy") gil::copy_pixels(src, dst);
+                else if (alg == "ucopy") {
+                    // interleaved -> planar / planar -> interleaved; the planar side through planar_pixel_iterator itself (not a step adaptor)
+                    if constexpr (PtrX<OS, decltype(src), decltype(S.under())>::value && PtrX<OD, decltype(dst), decltype(D.under())>::value)
+                        gil::uninitialized_copy_pixels(src, dst);
+                    else { out = "bad-op:alg"; return; }
+                }
                 else if (alg == "equal") extra = std::string(" eq=") + (gil::equal_pixels(src, dst) ? "1" : "0");
                 else { out = "bad-op:alg"; return; }
             }
@@ -192,6 +240,19 @@ template <typename OS, typename OD> static std::string run_op(std::vector<std::s
         } else {
         if (alg == "copy") gil::copy_pixels(src, dst);
         else if (alg == "cconv") gil::copy_and_convert_pixels(src, dst);
+        else if (alg == "ufill" || alg == "dcons" || alg == "destruct") {
+            // the planar overloads (per channel plane, dynamic_at_c on the iterator) need planar_pixel_iterator itself
+            if constexpr (PtrX<OD, decltype(dst), decltype(D.under())>::value) {
+                if (alg == "ufill") gil::uninitialized_fill_pixels(dst, OD::enc(arg));
+                else if (alg == "dcons") gil::default_construct_pixels(dst);
+                else gil::destruct_pixels(dst);
+            } else { out = "bad-op:alg"; return; }
+        }
+        else if (alg == "ucopy") {
+            if constexpr (PtrX<OS, decltype(src), decltype(S.under())>::value && PtrX<OD, decltype(dst), decltype(D.under())>::value)
+                gil::uninitialized_copy_pixels(src, dst);
+            else { out = "bad-op:alg"; return; }
+        }
         else if (alg == "fill") {
 #ifndef C04_PLANAR_STEP_FILL
             if constexpr (std::is_same<OD, OrgT<1>>::value && !std::is_same<std::decay_t<decltype(dst)>, std::decay_t<decltype(D.under())>>::value) { out = "err:no-compile"; return; } else
